@@ -1,5 +1,5 @@
 (* proofs/E5_gate.v — what passing checkpicosvg guarantees (C01, structural half; C08, unique ids). *)
-From Coq Require Import ZArith List Bool Ascii String.
+From Coq Require Import ZArith List Bool Ascii String Lia.
 From Pico Require Import Num PyStr CheckPico.
 Import ListNotations.
 Local Open Scope string_scope.
@@ -21,44 +21,75 @@ Proof.
   rewrite andb_true_iff, is_pg_spec, IH. split; [intros [H1 H2]; constructor; assumption|intro H; inversion H; tauto].
 Qed.
 
-Lemma grad_spec t : (t =? "linearGradient") || (t =? "radialGradient") = true <-> t = "linearGradient" \/ t = "radialGradient".
-Proof. rewrite orb_true_iff, !String.eqb_eq. tauto. Qed.
+Lemma grad_spec t : is_grad t = true <-> t = "linearGradient" \/ t = "radialGradient".
+Proof. unfold is_grad. rewrite orb_true_iff, !String.eqb_eq. tauto. Qed.
 
 Theorem allowed_sound (p : xpath) : allowed false p = true -> path_shape p.
 Proof.
-  unfold allowed.
-  destruct p as [|[t0 n0] r0]; [discriminate|].
-  destruct (t0 =? "svg") eqn:E0; [apply String.eqb_eq in E0; subst t0|].
-  2:{ (* first segment is not svg: the match falls through to false *)
-      intro H. exfalso. revert H.
-      destruct t0 as [|c t0']; [discriminate|].
-      repeat (match goal with |- context [match ?x with _ => _ end] => destruct x end; try discriminate). }
-  destruct n0 as [|n0]; [|destruct r0 as [|[? ?] ?]; discriminate].
-  destruct r0 as [|[t1 n1] r1]; [intros _; constructor|].
-  cbn [andb]. 
-  intro H.
-  (* case analysis on whether the second segment is defs[0] *)
-  destruct (t1 =? "defs") eqn:E1.
-  - apply String.eqb_eq in E1. subst t1.
-    destruct n1 as [|n1].
-    + destruct r1 as [|[t2 n2] r2]; [constructor|].
-      destruct r2 as [|[t3 n3] r3].
-      * apply ps_grad. apply grad_spec. exact H.
-      * destruct r3 as [|? ?].
-        -- destruct (t3 =? "stop") eqn:E3.
-           ++ apply String.eqb_eq in E3. subst t3. apply ps_stop. apply grad_spec. exact H.
-           ++ (* not a stop: only the generic path/g clause can accept, but "defs" is neither *)
-              exfalso. revert H. cbn [forallb is_pg fst]. cbn. 
-              repeat (match goal with |- context [match ?x with _ => _ end] => destruct x end; try discriminate); cbn; try discriminate.
-        -- exfalso. revert H. cbn [forallb is_pg fst]. cbn.
-           repeat (match goal with |- context [match ?x with _ => _ end] => destruct x end; try discriminate); cbn; try discriminate.
-    + exfalso. revert H. cbn [forallb is_pg fst]. cbn. discriminate.
-  - (* generic clause *)
-    apply ps_pg. apply forallb_pg.
-    revert H.
-    destruct t1 as [|c1 t1']; cbn in *; try discriminate;
-    repeat (match goal with |- context [match ?x with _ => _ end] => destruct x end; try discriminate); cbn; intro H; try exact H; try discriminate;
-    rewrite ?orb_false_r in H; exact H.
+  unfold allowed. destruct p as [|[t0 n0] rest]; [discriminate|].
+  intro H. apply andb_true_iff in H. destruct H as [H0 H]. apply andb_true_iff in H0. destruct H0 as [Ht0 Hn0].
+  apply String.eqb_eq in Ht0. apply Nat.eqb_eq in Hn0. subst t0 n0.
+  destruct rest as [|[t1 n1] r1]; [constructor|].
+  cbn [andb] in H. rewrite orb_false_r in H. apply orb_true_iff in H. destruct H as [H|H].
+  - apply andb_true_iff in H. destruct H as [H Hd]. apply andb_true_iff in H. destruct H as [Ht1 Hn1].
+    apply String.eqb_eq in Ht1. apply Nat.eqb_eq in Hn1. subst t1 n1.
+    unfold defs_tail in Hd. destruct r1 as [|[t2 n2] [|[t3 n3] [|? ?]]]; try discriminate.
+    + constructor.
+    + apply ps_grad. apply grad_spec. exact Hd.
+    + apply andb_true_iff in Hd. destruct Hd as [Hg Hs]. apply String.eqb_eq in Hs. subst t3. apply ps_stop. apply grad_spec. exact Hg.
+  - apply ps_pg. apply forallb_pg. exact H.
+Qed.
+
+(* ---------------------------------------------------------------- pruning (drop_unsupported) *)
+(* same tags, indices not larger: what pruning does to the path of a surviving element *)
+Definition le_seg (s' s : seg) : Prop := fst s' = fst s /\ snd s' <= snd s.
+Definition le_path (p' p : xpath) : Prop := Forall2 le_seg p' p.
+
+Lemma le_path_forallb (f : seg -> bool) p' p : (forall s' s, le_seg s' s -> f s = true -> f s' = true) ->
+  le_path p' p -> forallb f p = true -> forallb f p' = true.
+Proof.
+  intros Hf H. induction H as [|s' s r' r Hs Hr IH]; cbn [forallb]; [tauto|].
+  intro E. apply andb_true_iff in E. destruct E as [E1 E2]. rewrite (Hf _ _ Hs E1), (IH E2). reflexivity.
+Qed.
+Lemma is_pg_le s' s : le_seg s' s -> is_pg s = true -> is_pg s' = true.
+Proof. intros [Ht _]. unfold is_pg. rewrite Ht. tauto. Qed.
+Lemma is_text0_le s' s : le_seg s' s -> is_text0 s = is_text0 s'.
+Proof. intros [Ht _]. unfold is_text0. rewrite Ht. reflexivity. Qed.
+Lemma is_text1_le s' s : le_seg s' s -> is_text1 s = true -> is_text1 s' = true.
+Proof. intros [Ht _]. unfold is_text1. rewrite Ht. tauto. Qed.
+Lemma drop_while_le p' p : le_path p' p -> le_path (drop_while is_text0 p') (drop_while is_text0 p).
+Proof.
+  intro H. induction H as [|s' s r' r Hs Hr IH]; cbn [drop_while]; [constructor|].
+  rewrite (is_text0_le s' s Hs). destruct (is_text0 s'); [exact IH|constructor; assumption].
+Qed.
+Lemma defs_tail_le r' r : le_path r' r -> defs_tail r = true -> defs_tail r' = true.
+Proof.
+  intros H. unfold defs_tail.
+  destruct H as [|[t' n'] [t n] r1' r1 [Ht _] H1]; [tauto|]. cbn [fst] in Ht. subst t'.
+  destruct H1 as [|[s' m'] [s0 m] r2' r2 [Hs _] H2]; [tauto|]. cbn [fst] in Hs. subst s'.
+  destruct H2; [tauto|discriminate].
+Qed.
+
+(* the allow-list looks at indices only for svg[0] and defs[0]: shrinking indices keeps a path allowed *)
+Theorem allowed_le at_ p' p : le_path p' p -> allowed at_ p = true -> allowed at_ p' = true.
+Proof.
+  intros H. unfold allowed.
+  destruct H as [|[t0' n0'] [t0 n0] r' r [Ht0 Hn0] Hr]; [tauto|]. cbn [fst snd] in *. subst t0'.
+  intro Ha. apply andb_true_iff in Ha. destruct Ha as [Ha Hrest]. apply andb_true_iff in Ha. destruct Ha as [E0 En0].
+  apply Nat.eqb_eq in En0. subst n0. assert (n0' = O) by lia. subst n0'. rewrite E0. cbn [Nat.eqb andb].
+  destruct Hr as [|[t1' n1'] [t1 n1] r1' r1 [Ht1 Hn1] Hr1]; [reflexivity|]. cbn [fst snd] in *. subst t1'.
+  assert (Hle : le_path ((t1, n1') :: r1') ((t1, n1) :: r1)) by (constructor; [split; [reflexivity|exact Hn1]|exact Hr1]).
+  apply orb_true_iff in Hrest. destruct Hrest as [Hrest|Htext].
+  - apply orb_true_iff in Hrest. destruct Hrest as [Hdefs|Hpg].
+    + apply andb_true_iff in Hdefs. destruct Hdefs as [Hd Htail]. apply andb_true_iff in Hd. destruct Hd as [Ed En1].
+      apply Nat.eqb_eq in En1. subst n1. assert (n1' = O) by lia. subst n1'.
+      apply orb_true_iff. left. apply orb_true_iff. left.
+      apply andb_true_iff. split; [apply andb_true_iff; split; [exact Ed|reflexivity]|exact (defs_tail_le r1' r1 Hr1 Htail)].
+    + apply orb_true_iff. left. apply orb_true_iff. right. exact (le_path_forallb is_pg _ _ is_pg_le Hle Hpg).
+  - apply andb_true_iff in Htext. destruct Htext as [Ht H1]. apply andb_true_iff in Ht. destruct Ht as [Hat H0].
+    apply orb_true_iff. right. apply andb_true_iff. split; [apply andb_true_iff; split; [exact Hat|]|].
+    + rewrite <- (is_text0_le (t1, n1') (t1, n1)) by (split; [reflexivity|exact Hn1]). exact H0.
+    + exact (le_path_forallb is_text1 _ _ is_text1_le (drop_while_le _ _ Hle) H1).
 Qed.
 
 (* the gate: every element path has one of the admitted shapes, the single defs exists, ids are unique *)
@@ -98,4 +129,82 @@ Proof.
     destruct pth as [|[t0 [|n0]] [|[t1 [|n1]] [|? ?]]]; try discriminate.
     apply andb_true_iff in Hm. destruct Hm as [Ha Hb]. apply String.eqb_eq in Ha, Hb. subst. reflexivity.
   - apply negb_true_iff in H3. exact (proj1 (dup_ids_false [] _ H3)).
+Qed.
+
+(* ---------------------------------------------------------------- drop_unsupported leaves only allowed paths *)
+Lemma count_tag_app t l n : count_tag t (l ++ [n])%list = count_tag t l + (if xtag n =? t then 1 else 0).
+Proof. induction l as [|x r IH]; cbn [app count_tag]; [lia|]. rewrite IH. lia. Qed.
+
+Lemma prune_tag fuel at_ here n : xtag (prune fuel at_ here n) = xtag n.
+Proof. destruct fuel; [reflexivity|]. destruct n. reflexivity. Qed.
+Lemma prune_id fuel at_ here n : xid (prune fuel at_ here n) = xid n.
+Proof. destruct fuel; [reflexivity|]. destruct n. reflexivity. Qed.
+
+Lemma index_kids_tag seen kids : Forall (fun sn => fst (fst sn) = xtag (snd sn)) (index_kids seen kids).
+Proof. revert seen. induction kids as [|n r IH]; intro seen; cbn [index_kids]; constructor; [reflexivity|apply IH]. Qed.
+
+Lemma index_kids_In seen kids sn : In sn (index_kids seen kids) -> In (snd sn) kids.
+Proof.
+  revert seen. induction kids as [|n r IH]; intro seen; cbn [index_kids In]; [tauto|].
+  intros [<-|H]; [left; reflexivity|right; exact (IH _ H)].
+Qed.
+
+(* re-indexing the kept (and rewritten) children gives the same tags and indices that are not larger *)
+Lemma reindex_le (Pk : seg * xnode -> bool) (g : seg * xnode -> xnode) :
+  (forall sn, xtag (g sn) = xtag (snd sn)) ->
+  forall kids seen seen', (forall t, count_tag t seen' <= count_tag t seen) ->
+  Forall2 (fun new old => le_seg (fst new) (fst old) /\ snd new = g old)
+          (index_kids seen' (map g (filter Pk (index_kids seen kids)))) (filter Pk (index_kids seen kids)).
+Proof.
+  intros Hg. induction kids as [|n r IH]; intros seen seen' Hc; cbn [index_kids filter map]; [constructor|].
+  destruct (Pk (xtag n, count_tag (xtag n) seen, n)) eqn:E.
+  - cbn [map index_kids]. constructor.
+    + cbn [fst snd]. rewrite Hg. cbn [snd]. split; [split; [reflexivity|apply Hc]|reflexivity].
+    + apply IH. intro t. rewrite !count_tag_app. rewrite Hg. cbn [snd]. specialize (Hc t). lia.
+  - apply IH. intro t. rewrite count_tag_app. specialize (Hc t). lia.
+Qed.
+
+Lemma depth_kid t i kids k : In k kids -> depth k < depth (XN t i kids).
+Proof.
+  cbn [depth]. induction kids as [|x r IH]; [contradiction|]. cbn [fold_right In].
+  intros [->|H]; [lia|]. specialize (IH H). lia.
+Qed.
+
+Lemma le_path_app p' p s' s : le_path p' p -> le_seg s' s -> le_path (p' ++ [s'])%list (p ++ [s])%list.
+Proof. intros H Hs. induction H; cbn [app]; constructor; try assumption. constructor. Qed.
+
+Lemma Forall2_In_l {A B} (R : A -> B -> Prop) l l' : Forall2 R l l' -> forall a, In a l -> exists b, In b l' /\ R a b.
+Proof.
+  induction 1 as [|x y r r' Hxy H IH]; intros a Ha; [contradiction|].
+  destruct Ha as [->|Ha]; [exists y; split; [left; reflexivity|exact Hxy]|].
+  destruct (IH a Ha) as [b [Hb Hr]]. exists b. split; [right; exact Hb|exact Hr].
+Qed.
+
+Theorem prune_contexts_allowed at_ : forall f2 f1 n here here',
+  depth n <= f1 -> le_path here' here -> allowed at_ here = true ->
+  Forall (fun c => allowed at_ (fst c) = true) (contexts f2 here' (prune f1 at_ here n)).
+Proof.
+  induction f2 as [|f2 IH]; intros f1 n here here' Hd Hle Ha; cbn [contexts]; [constructor|].
+  destruct n as [t i kids]. destruct f1 as [|f1]; [cbn [depth] in Hd; lia|].
+  cbn [prune xtag xid xkids]. constructor; [cbn [fst]; exact (allowed_le at_ _ _ Hle Ha)|].
+  set (Pk := fun sn : seg * xnode => allowed at_ (here ++ [fst sn])%list).
+  set (g := fun sn : seg * xnode => prune f1 at_ (here ++ [fst sn])%list (snd sn)).
+  pose proof (reindex_le Pk g (fun sn => prune_tag f1 at_ _ (snd sn)) kids [] [] (fun _ => le_n _)) as HR.
+  apply Forall_flat_map. apply Forall_forall. intros new Hnew.
+  destruct (Forall2_In_l _ _ _ HR new Hnew) as [old [Hold [Hseg Hsnd]]].
+  apply filter_In in Hold. destruct Hold as [Hin HPk].
+  rewrite Hsnd. unfold g.
+  apply IH.
+  - pose proof (depth_kid t i kids (snd old) (index_kids_In [] kids old Hin)) as Hk. lia.
+  - apply le_path_app; assumption.
+  - exact HPk.
+Qed.
+
+(* hence: after drop_unsupported every remaining element has an allowed path, i.e. the gate can only still
+   complain about a missing defs or duplicate ids *)
+Corollary prune_all_allowed at_ root :
+  Forall (fun c => allowed at_ (fst c) = true) (all_contexts (prune (depth root) at_ [("svg", O)] root)).
+Proof.
+  unfold all_contexts. apply prune_contexts_allowed; [apply le_n| |reflexivity].
+  constructor; [split; [reflexivity|apply le_n]|constructor].
 Qed.
